@@ -66,6 +66,10 @@ def _mechanism(k, names):
             continue
         if n in inj or (s.choice is not None and any(c is s.choice and ("<choice %d>" % i) in inj for i, c in enumerate(k.unique_choices))):
             return "injected-default"
+    for n in names:
+        s = k.syms.get(n)
+        if s is None:
+            continue
         if s.choice is not None:
             c = s.choice
             if any(m._user_value == 0 and c.selection is m for m in c.syms):
@@ -119,8 +123,9 @@ def execute(sc, ctx):
             ctx.counters["probe:restart-with-deprecated-block"] += 1
         v2 = ops.values(k2)
         if v1 != v2:
-            d = [(n, v1[n], v2.get(n)) for n in v1 if v1[n] != v2.get(n)][:4]
-            ctx.violate(f"C02/values-differ/{_mechanism(k, [x[0] for x in d])}/{stratum}",
+            alld = [n for n in v1 if v1[n] != v2.get(n)]
+            d = [(n, v1[n], v2.get(n)) for n in alld][:4]
+            ctx.violate(f"C02/values-differ/{_mechanism(k, alld)}/{stratum}",
                         f"[{tag}] values after reload differ from the saved node: {d}")
         with simproc.quiet():
             b2 = k2._config_contents(None, write_deprecated=dep)
